@@ -1094,7 +1094,28 @@ func (g *g) arithText(pieces *[]Piece) []string {
 		if i > 0 {
 			b.WriteString(g.pick("arith_gap", " ", "  ", "\t", " ", "\n", "\n ", " \n  ", "\n\t"))
 		}
-		switch g.ch.Intn(9, "arith_chunk") {
+		switch g.ch.Intn(10, "arith_chunk") {
+		case 9:
+			// a backquote substitution directly behind and in front of other text
+			if g.bq || g.o.NoSubst {
+				b.WriteString("1")
+				ps = append(ps, skel.Lit("1"))
+				break
+			}
+			pre := g.pick("arith_bq_pre", "1+", "x=", "", "(")
+			post := g.pick("arith_bq_post", "", "*2", "", ")")
+			if pre == "(" || post == ")" {
+				pre, post = "(", ")"
+			}
+			b.WriteString(pre + "`c`" + post)
+			if pre != "" {
+				ps = append(ps, skel.Lit(pre))
+			}
+			ps = append(ps, skel.CmdSubst(false, []string{skel.Cmd(skel.Simple(nil, []string{skel.Word([]string{skel.Lit("c")})}), nil)}))
+			if post != "" {
+				ps = append(ps, skel.Lit(post))
+			}
+			g.f("arith_backquote_glued")
 		case 7:
 			// quotes, empty ones included, directly next to other parts
 			pre := g.pick("arith_q_pre", "", "", "1+", "x")
@@ -1314,7 +1335,7 @@ func (g *g) heredoc(n string) string {
 	}
 	nl := []int{1, 2, 0, 3, 4}[g.ch.Intn(5, "hd_lines")]
 	for i := 0; i < nl; i++ {
-		k := g.ch.Intn(25, "hd_line")
+		k := g.ch.Intn(26, "hd_line")
 		if k == 20 {
 			// double-quotes inside the word of an expansion (then single-quotes in a later one are still text)
 			k = 0
@@ -1324,6 +1345,19 @@ func (g *g) heredoc(n string) string {
 				lit += " t\n"
 				body.WriteString(`${x:-"a"} t` + "\n")
 				g.f("heredoc_line_with_dquotes_inside_param_word")
+				continue
+			}
+		}
+		if k == 25 {
+			// inside the word of an expansion double-quotes are real quotes,
+			// and an escaped double-quote in them is an escape
+			k = 0
+			if !h.Quoted {
+				flush()
+				ps = append(ps, skel.Param(true, "x", "-", skel.Word([]string{skel.Quote(`"`, []string{skel.Lit("a"), skel.Quote(`\`, []string{skel.Lit(`"`)}), skel.Lit("b")})})))
+				lit += " t\n"
+				body.WriteString(`${x-"a\"b"} t` + "\n")
+				g.f("heredoc_line_with_escaped_dquote_inside_param_word")
 				continue
 			}
 		}
